@@ -8,8 +8,9 @@ use quote::{format_ident, quote};
 use crate::{
     convert::STD_NUM_NONZERO_PREFIX,
     type_entry::{
-        EnumTagType, StructProperty, StructPropertyRename, TypeEntry, TypeEntryDetails,
-        TypeEntryEnum, TypeEntryNative, TypeEntryNewtype, TypeEntryStruct, Variant, VariantDetails,
+        EnumTagType, StructProperty, StructPropertyRename, StructPropertyState, TypeEntry,
+        TypeEntryDetails, TypeEntryEnum, TypeEntryNative, TypeEntryNewtype, TypeEntryStruct,
+        Variant, VariantDetails,
     },
     TypeId, TypeSpace,
 };
@@ -393,6 +394,20 @@ fn value_for_struct_props(
     scope: &TokenStream,
 ) -> Option<Vec<TokenStream>> {
     let map = value.as_object()?;
+
+    // A value that lacks a required property is not a value of this struct
+    // (or struct variant).
+    let missing_required = properties.iter().any(|prop| {
+        let name = match &prop.rename {
+            StructPropertyRename::None => &prop.name,
+            StructPropertyRename::Rename(rename) => rename,
+            StructPropertyRename::Flatten => return false,
+        };
+        matches!(&prop.state, StructPropertyState::Required) && !map.contains_key(name)
+    });
+    if missing_required {
+        return None;
+    }
 
     let direct_props = properties.iter().filter_map(|prop| {
         let name = match &prop.rename {
